@@ -1,9 +1,9 @@
 SPECIFICATION Spec
 CONSTANTS
-  Names = {1, 2}
+  Names = {1}
   MaxEnv = 10
   MaxInc = 4
-  MaxRaise = 2
+  MaxRaise = 0
 INVARIANT NoViolation
 INVARIANT Structural
 INVARIANT Bounded
